@@ -115,14 +115,16 @@ SILENT_EDITS = [   # behaviour-preserving, all exit 0
 ]
 
 
+DECIDES += (' MARGS (batch 12, rules/s10C31.py): the object looked up as "__match_args__" in MatchCase.c is accepted only behind an exact tuple type test (CPython: PyTuple_CheckExact, TypeError otherwise).')
+
 def run(ctx):
-    from ..rules import parlists, sC31, s4C31, dD2, s8C31
+    from ..rules import parlists, sC31, s4C31, dD2, s8C31, s10C31
     sym = sC31.Sym(ctx)
     # s4C31.rule_suborder(ctx, sym): armed after the repair 1166a8980 (keyword sub-patterns of a class pattern were matched before the positional ones on the unmodified tree)
     # dD2.rule_tempdef / rule_selfkw / rule_dupguard: armed after the repairs 3a6140f2e, 557d1232b, c9e7a10b7 (or-pattern temp inside a sequence, int(x, real=r), duplicate-key check order)
     # sC31.rule_nullpath(ctx): armed after the repair 0d41e88f0 (it reported __Pyx__MatchCase_ClassPositional of the unmodified tree, see FINDING_1)
     # sC31.rule_asbind(ctx, sym): armed after the repair 423ab91e8 (`case 1.0 as x` binds the literal instead of the subject, see FINDING_3)
-    return [pC31.rule_hooks(ctx), pC31.rule_temps(ctx), typed.rule_I3(ctx, modules=('MatchCaseNodes',), floor=10),
+    return [s10C31.rule_margs(ctx), pC31.rule_hooks(ctx), pC31.rule_temps(ctx), typed.rule_I3(ctx, modules=('MatchCaseNodes',), floor=10),
             pC31.rule_forwarders(ctx), pC31.rule_sections(ctx), pC31.rule_cfa(ctx), parlists.rule_par(ctx), sC31.rule_nullpath(ctx), sC31.rule_asbind(ctx, sym),
             sC31.rule_sentinel(ctx), sC31.rule_unchecked(ctx), sC31.rule_absent(ctx, sym), sC31.rule_cover(ctx), sC31.rule_capacity(ctx), sC31.rule_valid(ctx, sym),
             sC31.rule_tpflags(ctx, sym), sC31.rule_pair(ctx, sym), sC31.rule_altnum(ctx, sym), sC31.rule_seq(ctx, sym), sC31.rule_valop(ctx, sym),
